@@ -63,6 +63,14 @@ CHECKS = {
    text='The Graph object is a TLA+ history machine (Graph.tla: Apply): TLC checks partition, edge/attribute split, filters, implicit top, the re-entrancy formula as invariants and top refusal, operands-untouched and the set-algebra clauses as action properties over every pool of two small graphs and every history of two calls (MC_Graph); histories generated by TLC in simulation mode (deeper, larger graphs) are replayed on real Graph objects, and the trace specification J_Graph re-applies the same actions step by step and compares every object and every query after every call.',
    note='markers of triples common to both operands and multiplicity of duplicates from the right operand are drift (O6)',
    technique='TLA+ history machine model-checked by TLC + spec-to-code replay of TLC-simulated histories, validated step by step by a TLC trace specification'),
+ 'C11': dict(engine='transform', design='5 C11, 4.9',
+   text='TLC checks on the specification that reify-then-dereify is the identity on the triples and alignment markers of every graph without a collapsible node, that no reifiable role is left, and that dereification never collapses the top, a referenced node or a node with another relation (MC_Transform: InverseLaw, NeverCollapsesTopOrShared); recorded reify_edges / dereify_edges / encode executions on random graphs over the AMR and MiniAMR inventories are judged by TLC on the stated clauses (fresh variables, top and other triples kept, original triples and identical text restored).',
+   note='preconditions (no collapsible node initially, unambiguous table for the roles used) are specification predicates; model tables are data',
+   technique='TLA+ transformation functions model-checked by TLC + TLC trace validation of recorded reify/dereify executions'),
+ 'C12': dict(engine='transform', design='5 C12, 4.9',
+   text='The four transformations are a TLA+ program machine (MC_Transform): TLC checks same top, well-formedness, connectivity after every step of every program (branches indicated at most once) from every small decoded or marker-stripped start graph, and the attribute / branch clauses as action properties; recorded programs of 1-4 transformations of the real code on decoded, hand-built, edited and re-topped graphs are validated step by step by the trace specification J_Transform (no exception, same top, well-formed, connected, encodes and decodes to itself, clause per transformation); exact agreement with the specification functions is reported as drift.',
+   note='graphs using both roles of an ambiguous reification (AMR :subset and :superset) are outside the precondition (O14)',
+   technique='TLA+ program machine model-checked by TLC + step-by-step TLC trace validation of recorded transformation programs'),
 }
 NOT_YET = 'check not built yet (build in progress, see DESIGN.md section 11)'
 
